@@ -238,3 +238,34 @@ Fixpoint norm_of (tbl : list (nat * nat)) (x : nat) : nat :=
   | [] => x
   | (a, b) :: r => if a =? x then b else norm_of r x
   end.
+
+(* ------------------------------------------------------------------ validity of the revealed rate string *)
+
+(** A revealed rate string as the DRIVER's own lexer sees it (not the repo's parser): per tuple
+    (pair id, rate > 0).  A vote string is valid only if it is well formed and names every pair at
+    most once — whatever the rates are (an abstain entry, rate <= 0, counts like any other).
+    [dup_rule] is how the parser detects repeated pairs (generated fact [rates_dup_check],
+    harness/gen/c11): [DupAll] = a set of ALL pairs seen so far (pinned tree); [DupPricedOnly] =
+    abstain entries are not tracked; [DupOff] = no test. *)
+Inductive dup_rule := DupAll | DupPricedOnly | DupOff.
+
+Fixpoint distinctb (l : list nat) : bool :=
+  match l with
+  | [] => true
+  | x :: r => negb (existsb (Nat.eqb x) r) && distinctb r
+  end.
+
+Definition valid_rates (d : dup_rule) (wellformed : bool) (ts : list (nat * bool)) : bool :=
+  wellformed &&
+  match d with
+  | DupAll => distinctb (map fst ts)
+  | DupPricedOnly => distinctb (map fst (filter snd ts))
+  | DupOff => true
+  end.
+
+(** MsgAggregateExchangeRateVote whose [parses] flag is the validity of the revealed string:
+    [wellformed] = every tuple is "(pair,decimal)" (repo's tuple parser AND the driver's lexer),
+    [ts] = the driver's view of the tuples *)
+Definition vote_msg (d : dup_rule) (f v salt rates tuples : nat) (wellformed : bool)
+           (ts : list (nat * bool)) (wl : bool) : msg :=
+  Vote f v salt rates tuples (valid_rates d wellformed ts) wl.
